@@ -546,7 +546,9 @@ class SelfPath(Path):
         self.volatile = True
 
     def __str__(self) -> str:
-        return "@" + str(self.path)[1:]
+        return self.path.env.self_token + "".join(
+            str(selector) for selector in self.path.selectors
+        )
 
     def _current_node(self, context: FilterContext) -> NodeList:
         # A bare `@` is a query: it selects the current node, whatever its value.
@@ -635,8 +637,9 @@ class FilterContextPath(Path):
         self.volatile = False
 
     def __str__(self) -> str:
-        path_repr = str(self.path)
-        return "_" + path_repr[1:]
+        return self.path.env.filter_context_token + "".join(
+            str(selector) for selector in self.path.selectors
+        )
 
     def evaluate(self, context: FilterContext) -> object:
         return NodeList(
@@ -739,14 +742,15 @@ class FunctionExtension(FilterExpression):
 class CurrentKey(FilterExpression):
     """The key/property or index associated with the current object."""
 
-    __slots__ = ()
+    __slots__ = ("token",)
 
-    def __init__(self) -> None:
+    def __init__(self, token: str = "#") -> None:
         super().__init__()
         self.volatile = True
+        self.token = token
 
     def __str__(self) -> str:
-        return "#"
+        return self.token
 
     def __eq__(self, other: object) -> bool:
         return isinstance(other, CurrentKey)
